@@ -108,6 +108,8 @@ package config
 //@   noeffect dynamic:elem:field:subscribers
 //@ func (*Coordinator).Reload
 //@   props C17
+//@   ensures [monitor-lock-released] count("Mutex).Lock") == count("Mutex).Unlock") && count("Mutex).Lock") == 1
+//@   at call loadFromFile assert [monitor-lock-held] count("Mutex).Lock") == 1 && count("Mutex).Unlock") == 0
 //@   nosafe
 //@   requires c != nil
 //@   ensures [load-error-changes-nothing] called("loadFromFile") && ret("loadFromFile") != nil ==> result != nil && c.config == old(c.config) && !called("notifySubscribers")
